@@ -42,7 +42,9 @@ Section Objective.
         nneg N (fsum (zipf (fun a q =>
           let q' := clamp_p q in
           nadd N (nmul N a (nln N q')) (nmul N (nsub N one a) (nln N (nsub N one q')))) t p))
-    | KLDivergence => fsum (zipf (fun a q => nmul N a (nln N (ndiv N a (clamp_p q)))) t p)
+    | KLDivergence =>
+        fsum (zipf (fun a q => if neqb N a zero then zero
+                               else nmul N a (nln N (ndiv N a (clamp_p q)))) t p)
     end.
 
   Definition grad_fun (o : objective) (len : T) : T -> T -> T :=
